@@ -132,6 +132,8 @@ struct Sess<'a> {
     broadcast_reported: bool,
     /// sequence number of the solicited response built last
     last_sol_seq: Option<u8>,
+    /// number of response fragments built before the broadcast received last arrived
+    broadcast_since_frag: usize,
     app_iin: u8,
     unconfirmed_carrier_seen: bool,
     /// an unsolicited series ended without confirmation since the last response was judged
@@ -950,6 +952,7 @@ impl<'a> Sess<'a> {
                             self.broadcast_uncertain = false;
                         }
                         self.broadcast_reported = false;
+                        self.broadcast_since_frag = self.frags.len();
                     }
                     if function == "DisableUnsolicited" && action == "Processed" {
                         // DISABLE_UNSOLICITED stops unsolicited reporting however it is addressed. A broadcast has no
@@ -1191,7 +1194,19 @@ impl<'a> Sess<'a> {
         }
         // a confirmation can only acknowledge an indication that some response has reported
         if self.broadcast_pending == Some(1) && self.broadcast_reported {
+            // (the confirmation of a response that did not itself report the broadcast - one that was already on its
+            // way when the broadcast arrived - may count or not: "confirmed" can be read either way)
+            let since = self.broadcast_since_frag;
+            let reported_it = |frag: usize| {
+                frag >= since
+                    && self.frags[frag].bytes.get(2).map(|b| b & iin1::BROADCAST != 0)
+                        == Some(true)
+            };
             match confirmed {
+                Some((frag, false)) if !reported_it(frag) => {
+                    self.broadcast_uncertain = true;
+                    label(&mut self.f, "confirmation_of_a_response_that_did_not_report_the_broadcast");
+                }
                 Some((_, false)) => {
                     // an accepted confirmation ends a confirm-mandatory broadcast indication
                     self.broadcast_pending = None;
@@ -1550,6 +1565,7 @@ pub async fn run_history(case: &Case, c13_ops: bool) -> Findings {
         broadcast_uncertain: false,
         broadcast_reported: false,
         last_sol_seq: None,
+        broadcast_since_frag: 0,
         app_iin: 0,
         unconfirmed_carrier_seen: false,
         unsol_series_failed: false,
